@@ -229,6 +229,10 @@ def rule_roman(ctx):
             if isinstance(n, ast.Constant) and isinstance(n.value, str) and \
                     len(n.value) == 7 and n.value.isalpha() and lets is None:
                 lets = n.value
+            if isinstance(n, ast.Tuple) and vals is None:
+                t = _tuple_consts(n)
+                if t and all(isinstance(x, int) for x in t) and len(t) == 7:
+                    vals = t
         if vals == want_vals and lets == want_let:
             rr.ok('%s uses %s / %r' % (fn, vals, lets), MATH)
         else:
